@@ -43,6 +43,7 @@ def validate(run, module, events, name=None, timeout=900, cfg=CFG, env=None, dfs
         raise tlc.TLCFailure("trace %s: consumed %d of %d events" % (name or module, r.distinct - 1, len(events)))
     if run is not None:
         run.add_tlc(name or module, r, kind="trace", traces=(1 if count_trace else 0))
+        run.last_prints = r.prints
     return mism
 
 
